@@ -13,6 +13,7 @@ import Driver.C17Mon
 import Driver.C03Mon
 import Driver.C18Mon
 import Driver.C20Mon
+import Driver.C19Mon
 open Kv
 
 structure MState where
@@ -41,6 +42,7 @@ def dispatchMon (st : MState) (prop : String) (l : Line) : MState × String :=
   | "C17" => let (s, r) := Drv.C17.stepMon st.c17 l; ({ st with c17 := s }, r)
   | "C03" => let (s, r) := Drv.C03.stepMon st.c03 l; ({ st with c03 := s }, r)
   | "C18" => (st, Drv.C18.stepMon l)
+  | "C19" => (st, Drv.C19.stepMon l)
   | _ => (st, "bad-op")
 
 def main : IO Unit := driverMain dispatchMon {}
